@@ -82,10 +82,16 @@ func (session *PubSession) Listen(port int, isTcpFlag bool) (int, error) {
 
 // RunLoop 阻塞函数
 func (session *PubSession) RunLoop() error {
+	var err error
 	if session.isTcpFlag {
-		return session.runLoopTcp()
+		err = session.runLoopTcp()
+	} else {
+		err = session.runLoopUdp()
 	}
-	return session.runLoopUdp()
+	// the unpacker belongs to the reading side: it is finished here, after the read loop has ended, and not in
+	// dispose(), which runs in the goroutine of whoever disposes the session while packets may still be arriving
+	session.unpacker.Dispose()
+	return err
 }
 
 // ----- IServerSessionLifecycle ---------------------------------------------------------------------------------------
@@ -258,8 +264,6 @@ func (session *PubSession) dispose(err error) error {
 			}
 			retErr = session.udpConn.Dispose()
 		}
-
-		session.unpacker.Dispose()
 	})
 	return retErr
 }
